@@ -533,6 +533,10 @@ pub fn replay(args: &Args) {
             continue;
         }
         let case = Case::parse(v);
+        // C02 quantifies over valid requests only; the degenerate ones belong to C10
+        if args.get("only") == Some("ok") && case.outcome != "ok" {
+            continue;
+        }
         rep.cases += 1;
         rep.sample(v.clone());
         let (key, site) = (case.key(), case.site());
@@ -582,16 +586,17 @@ pub fn record(args: &Args) {
     let mut w = NdWriter::create(args.req("out"));
     let forms = ["apply", "idx", "apply2", "idx2", "custom", "custom2", "citer"];
     let mut n_events = 0u64;
+    let degenerate = args.flag("degenerate");
     for r in 0..runs {
         let form = *rng.pick(&forms);
         let len = if rng.chance(1, 10) { rng.range(0, 2) } else { rng.range(0, maxlen) } as usize;
         let win = match rng.below(6) {
             0 => len as i64 + rng.range(0, 3),
             1 => 1,
-            2 => rng.range(0, 1), // degenerate sometimes
+            2 => if degenerate { rng.range(0, 1) } else { 1 }, // degenerate sometimes
             _ => rng.range(1, (len as i64).max(1)),
         } as usize;
-        let len2 = if is_two(form) && rng.chance(1, 12) { (len as i64 + rng.range(-1, 1)).max(0) as usize } else { len };
+        let len2 = if degenerate && is_two(form) && rng.chance(1, 8) { (len as i64 + rng.range(-1, 1)).max(0) as usize } else { len };
         let case = Case {
             form: form.to_string(),
             len,
